@@ -18,6 +18,7 @@ from . import families as F
 from .core import Stats, Run, pmap_stats, seeded_order, jsonable
 
 import smoothmath as sm
+import smoothmath.expression as smx
 from smoothmath import Partial, LocatedDifferential
 
 EXTRA = "extra_coord"
@@ -432,6 +433,104 @@ def extreme_transcendental(st: Stats, pid: str):
                                   f"but evaluation gave {o}"))
 
 
+# ---------------------------------------------------------------- deep expressions
+def deep_shapes():
+    """(label, builder(depth) -> expression object, depth for the numeric routes, depth for the symbolic routes).
+    Built iteratively through the public constructors / operators; well inside what the pinned library handles
+    (it copes with about 380 nested unary nodes, Horner degree 245, 330 continued-fraction levels, 450 chained `+`)."""
+    X = lambda: smx.Variable("x")
+
+    def unary(d):
+        e = X()
+        ws = [smx.Sine, smx.Negation, smx.Cosine]
+        for i in range(d):
+            e = ws[i % 3](e)
+        return e
+
+    def horner(deg):
+        x, e = X(), smx.Constant(1)
+        for i in range(deg):
+            e = smx.Add(smx.Multiply(e, x), smx.Constant((i % 5) - 2))
+        return e
+
+    def cfrac(n):
+        e = X()
+        for _ in range(n):
+            e = smx.Add(smx.Constant(1), smx.Reciprocal(e))
+        return e
+
+    def opsum(n):
+        x = X()
+        e = x
+        for _ in range(n):
+            e = e + x
+        return e
+
+    def right_minus(n):
+        e = X()
+        for i in range(n):
+            e = smx.Minus(smx.Constant(i % 3), e)
+        return e
+
+    return [("nested unary nodes", unary, 300, 100), ("Horner-form polynomial", horner, 150, 50),
+            ("continued fraction", cfrac, 200, 80), ("sum written with +", opsum, 400, 300),
+            ("right-nested differences", right_minus, 300, 100)]
+
+
+def deep_executions(st: Stats, pid: str):
+    """Deep but legal expressions (C17: nothing but the library's own errors escapes, in particular no RecursionError;
+    C11: simplification completes).  Numeric routes at the larger depth, symbolic routes at the smaller one."""
+    from .core import time_limit, OperationTimeout
+    p = lambda: sm.Point(x=0.5)
+    numeric = {
+        "at(Point)": lambda e: e.at(p()), "at(number)": lambda e: e.at(0.5),
+        "LocatedDifferential.component": lambda e: LocatedDifferential(e, p()).component("x"),
+        "Partial.late.at": lambda e: Partial(e, "x").at(p()), "Derivative.late.at": lambda e: sm.Derivative(e).at(0.5),
+        "Differential.late.at.component": lambda e: sm.Differential(e).at(p()).component("x"),
+        "Differential.late.component_at": lambda e: sm.Differential(e).component_at("x", p()),
+        "_normalize": lambda e: e._normalize(),
+    }
+    symbolic = {
+        "Partial.early.at": lambda e: Partial(e, "x", compute_early=True).at(p()),
+        "Partial.late.as_expression": lambda e: Partial(e, "x").as_expression(),
+        "Differential.early.at.component": lambda e: sm.Differential(e, compute_early=True).at(p()).component("x"),
+        "Derivative.early.as_expression.at": lambda e: sm.Derivative(e, compute_early=True).as_expression().at(0.5),
+    }
+    import logging
+    logging.disable(logging.WARNING)
+    try:
+        for label, mk, d_num, d_sym in deep_shapes():
+            for routes, depth in ((numeric, d_num), (symbolic, d_sym)):
+                if pid == "C11":
+                    routes = {k: v for k, v in routes.items() if k in ("_normalize", "Partial.late.as_expression")}
+                for route, f in routes.items():
+                    st.inc("deep_executions")
+                    st.inc("transitions")
+                    try:
+                        with time_limit(240):
+                            try:
+                                r = f(mk(depth))
+                                o = ("val", r) if isinstance(r, (int, float)) else ("obj", type(r).__name__)
+                            except RecursionError:
+                                o = ("exc", "RecursionError")
+                            except OperationTimeout:
+                                raise
+                            except Exception as ex:  # noqa: BLE001
+                                o = ("exc", type(ex).__name__, str(ex)[:120])
+                    except OperationTimeout:
+                        o = ("exc", "did not finish within 240 s")
+                    st.outcome("deep->" + o[0])
+                    fine = o[0] in ("val", "obj") or (o[0] == "exc" and o[1] in ("DomainError", "CoordinateMissing"))
+                    if o[0] == "val" and not A.is_finite_real(o[1]):
+                        fine = False
+                    if not fine:
+                        st.violation({"why": f"{label}, depth {depth}: {route} -> {o} (a legal expression well inside the depth the "
+                                             f"library handles; expected a finite number / an expression)",
+                                      "deep_shape": label, "depth": depth, "route": route})
+    finally:
+        logging.disable(logging.NOTSET)
+
+
 # ---------------------------------------------------------------- runner
 CHECKS = {}
 
@@ -492,6 +591,8 @@ def run_sweep(pid, tier, seed, fn, rule, assumptions, source=None, chunk=150):
     if pid in ("C01", "C02", "C17"):
         extreme_executions(st, pid)
         extreme_transcendental(st, pid)
+    if pid == "C17":
+        deep_executions(st, pid)
     run.absorb(st)
     c = st.c
     cov = {
